@@ -147,14 +147,15 @@ def div(ctx, a, b):
         return mul(a, Fraction(1, 1) / Fraction(b))
     if b.eq(SQRT2):
         return mul(a, HSQRT2)          # division-free encoding (DESIGN 2.5)
-    key = (Z(a).get_id(), Z(b).get_id())
-    q = ctx.div_cache.get(key)
-    if q is None:
-        q = ctx.fresh("q")
-        ctx.div_cache[key] = q
-        # guarded definition: q is unconstrained when b == 0 (always consistent)
-        ctx.assume(z3.Implies(R(Z(b)) != 0, R(Z(b)) * q == R(Z(a))), why="div-def")
-    return q
+    # a / b := a * inv(b) with the guarded definition b != 0 => b * inv(b) == 1; all divisions by
+    # the same denominator then agree by polynomial identity (no division terms, DESIGN 2.5)
+    key = Z(b).get_id()
+    iv = ctx.div_cache.get(key)
+    if iv is None:
+        iv = ctx.fresh("inv")
+        ctx.div_cache[key] = iv
+        ctx.assume(z3.Implies(R(Z(b)) != 0, R(Z(b)) * iv == 1), why="inv-def")
+    return mul(a, iv)
 
 
 def lt(a, b):
@@ -371,8 +372,15 @@ _cosf = z3.Function("cos", z3.RealSort(), z3.RealSort())
 _sinf = z3.Function("sin", z3.RealSort(), z3.RealSort())
 
 
+CONCRETE_MODE = False
+
+
 def cis(theta):
     """exp(i*theta) for a real theta (radians): uninterpreted unit-modulus value."""
+    if CONCRETE_MODE:
+        import math
+        t = num(theta)
+        return Cx(math.cos(t), math.sin(t))
     if not is_sym(theta):
         if theta == 0:
             return Cx(1, 0)
